@@ -23,33 +23,53 @@ import SqlProofs.IdentShape.Table.SubSel
 namespace Sql
 namespace Acc
 
+theorem contexts_ok : ∀ c ∈ contexts, (skelsOf c).all skelCheck = true := by
+  intro c hc
+  simp only [contexts, List.mem_cons, List.not_mem_nil, or_false] at hc
+  rcases hc with rfl | hc
+  · exact ctxSel1_ok
+  rcases hc with rfl | hc
+  · exact ctxSel2a_ok
+  rcases hc with rfl | hc
+  · exact ctxSel2b_ok
+  rcases hc with rfl | hc
+  · exact ctxSel3a_ok
+  rcases hc with rfl | hc
+  · exact ctxSel3b_ok
+  rcases hc with rfl | hc
+  · exact ctxSel3c_ok
+  rcases hc with rfl | hc
+  · exact ctxSelN1_ok
+  rcases hc with rfl | hc
+  · exact ctxSelN2_ok
+  rcases hc with rfl | hc
+  · exact ctxSelN3_ok
+  rcases hc with rfl | hc
+  · exact ctxFrom1_ok
+  rcases hc with rfl | hc
+  · exact ctxFrom2a_ok
+  rcases hc with rfl | hc
+  · exact ctxFrom2b_ok
+  rcases hc with rfl | hc
+  · exact ctxFrom3_ok
+  rcases hc with rfl | hc
+  · exact ctxJoin_ok
+  rcases hc with rfl | hc
+  · exact ctxUpdate_ok
+  rcases hc with rfl | hc
+  · exact ctxInsert_ok
+  rcases hc with rfl | hc
+  · exact ctxSubFromSel_ok
+  rcases hc with rfl | hc
+  · exact ctxSubFromFrom_ok
+  subst hc
+  exact ctxSubSel_ok
+
 /-- **the decided table**: for every context and every spelling of the reference, the grouped tree of the skeleton
 contains an `Identifier` whose children parse into exactly the placeholder qualifier, name and alias -/
 theorem table_ok : ∀ c ∈ contexts, ∀ r ∈ refSpecs, skelCheck (mkSkel c r) = true := by
   intro c hc r hr
-  have key : (skelsOf c).all skelCheck = true := by
-    simp only [contexts, List.mem_cons, List.not_mem_nil, or_false] at hc
-    rcases hc with rfl | rfl | rfl | rfl | rfl | rfl | rfl | rfl | rfl | rfl | rfl | rfl | rfl | rfl | rfl | rfl | rfl | rfl | rfl
-  · exact ctxSel1_ok
-  · exact ctxSel2a_ok
-  · exact ctxSel2b_ok
-  · exact ctxSel3a_ok
-  · exact ctxSel3b_ok
-  · exact ctxSel3c_ok
-  · exact ctxSelN1_ok
-  · exact ctxSelN2_ok
-  · exact ctxSelN3_ok
-  · exact ctxFrom1_ok
-  · exact ctxFrom2a_ok
-  · exact ctxFrom2b_ok
-  · exact ctxFrom3_ok
-  · exact ctxJoin_ok
-  · exact ctxUpdate_ok
-  · exact ctxInsert_ok
-  · exact ctxSubFromSel_ok
-  · exact ctxSubFromFrom_ok
-  · exact ctxSubSel_ok
-  exact List.all_eq_true.1 key _ (List.mem_map.2 ⟨r, hr, rfl⟩)
+  exact List.all_eq_true.1 (contexts_ok c hc) _ (List.mem_map.2 ⟨r, hr, rfl⟩)
 
 end Acc
 end Sql
